@@ -5,6 +5,25 @@ from engine import log, VERIF
 import matcher_props
 import nucleo_props
 
+QUICK = {
+    "C01": [r"prefilter_ascii_h4_n2", r"prefilter_ascii_h5_n3", r"prefilter_uni_h4_n2_(un|an)", r"optimal_ascii_h4_n2_w0_4_path", r"optimal_ascii_h4_n2_w1_4_dflt",
+            r"optimal_uni_h4_n2_w0_4_un", r"greedy_ascii_h4_n2_s0_g3", r"greedy_ascii_h5_n3_s1_g5", r"greedy_uni_h4_n2_s0_un", r"fuzzy1_ascii_h3_dflt",
+            r"dispatch_h4_n2_(aa|ua|uu)_optimal_score", r"dispatch_h4_n2_(aa|uu)_greedy_idx", r"dispatch_h3_n3_ua_greedy_idx", r"repr_fuzzy_h2_n1", r"repr_greedy_h3_n2", r"latin1_model_agrees_h"],
+    "C02": [r"optimal_ascii_h4_n2_w0_4_path", r"optimal_ascii_h3_n2_w0_3_dflt", r"score_window_ascii_h4_n2_w0_4", r"score_window_ascii_h5_n3_w1_5", r"substring_ascii_h4_n3_path_cs",
+            r"prefix_ascii_h4_n2_path", r"postfix_ascii_h5_n3_dflt", r"exact_ascii_h3_n3_dflt", r"prefix_uni_h4_n2_un", r"exact_uni_h3_n3_un", r"optimal_uni_h4_n2_w1_4_an",
+            r"fuzzy1_ascii_h5_path", r"fuzzy1_uni_h3_un_dflt", r"dispatch_h4_n2_(aa|ua)_optimal_idx", r"latin1_model_agrees_h"],
+    "C03": [r"optimal_ascii_h4_n2_w1_4_dflt", r"optimal_ascii_h4_n2_w0_3_path", r"greedy_ascii_h4_n2_s1_g4", r"greedy_ascii_h5_n3_s0_g5", r"score_window_ascii_h4_n2_w1_3",
+            r"score_window_ascii_h5_n3_w0_3", r"long_needle_exact_4200", r"prefix_penalty_starts_h", r"exact_ascii_h4_n2_path", r"substring_ascii_h5_n3_dflt_cs",
+            r"fuzzy1_ascii_h3_path", r"greedy_uni_h5_n3_s1_an", r"postfix_uni_h4_n2_an", r"repr_substring_h3_n2", r"latin1_model_agrees_h"],
+    "C04": [r"optimal_ascii_h3_n2_w0_3_dflt", r"optimal_ascii_h4_n2_w0_4_path", r"optimal_ascii_h4_n2_w1_4_dflt", r"optimal_uni_h4_n2_w0_4_un", r"fuzzy1_ascii_h3_(dflt|path)",
+            r"fuzzy1_ascii_h5_(dflt|path)", r"fuzzy1_uni_h3_un_(dflt|path)", r"fuzzy1_uni_h4_an_path", r"latin1_model_agrees_h"],
+    "C05": [r"substring_ascii_h4_n2_dflt_ic", r"substring_ascii_h4_n[23]_(dflt|path)_cs", r"prefix_ascii_.*", r"postfix_ascii_.*", r"exact_ascii_h3_n3_dflt", r"exact_ascii_h4_n2_path",
+            r"substring_uni_h4_n2_an", r"prefix_uni_h4_n2_un", r"postfix_uni_h4_n2_an", r"exact_uni_h3_n3_un", r"long_needle_prefix_4200", r"latin1_model_agrees_h"],
+    "C10": [r"layout_real_(ascii|char)", r"optimal_ascii_h4_n2_w0_3_path", r"optimal_ascii_h3_n2_w0_3_dflt", r"greedy_ascii_h5_n2_s0_g4", r"score_window_ascii_h5_n2_w0_5",
+            r"prefilter_ascii_h4_n3", r"substring_ascii_h5_n3_dflt_cs", r"exact_ascii_h4_n3_path", r"long_needle_exact_4200", r"prefix_penalty_starts_h",
+            r"optimal_uni_h4_n2_w1_4_an", r"greedy_uni_h4_n2_s0_un", r"fuzzy1_uni_h4_an_dflt", r"prefilter_uni_h4_n2_an", r"latin1_model_agrees_h"],
+}
+
 PROP_RE = re.compile(r"^(C\d\d)\b")
 
 # Failure classes that are *engine* problems, never verdicts about the code
@@ -47,6 +66,11 @@ class KaniProp:
         t0 = time.time()
         all_insts = self.gen_mod.all_instances(tier)
         mine = [i for i in self.instances_fn(tier) if pid in i.props]
+        if tier == "quick" and pid in QUICK and not args.only:
+            # the quick tier of a property is a hand-picked subset that finishes in a few minutes on
+            # 16 cores (the check meant to run on every change); the thorough tier runs everything
+            wl = QUICK[pid]
+            mine = [i for i in mine if any(re.fullmatch(rx, i.name) for rx in wl)]
         if args.only:
             mine = [i for i in mine if re.search(args.only, i.name)]
         rnd = random.Random(seed)
@@ -76,9 +100,7 @@ class KaniProp:
         names = [i.name for i in mine]
         log("[%s] %d harness instances, -j %d, cap %ds" % (pid, len(names), jobs, cap))
         try:
-            pre = None
-            if self.gen_mod is nucleo_props:
-                pre = lambda sm: nucleo_props.write_gen(sc, tier, small=sm)
+            pre = lambda sm: self.gen_mod.write_gen(sc, tier, small=sm)
             results, wall, logp = engine.run_kani(sc, self.package, mine, jobs, cap, small=self.small,
                                                   extra_args=self.extra_args, mem_cap_gb=self.mem_cap_gb, pre_codegen=pre)
         except engine.BuildError as e:
@@ -191,8 +213,7 @@ class KaniProp:
             ok_profiles = []
             descs = []
             for profile in ("dev", "release"):
-                if self.gen_mod is nucleo_props:
-                    nucleo_props.write_gen(sc, "quick", extra=[inst], small=getattr(inst, "small", self.small))
+                self.gen_mod.write_gen(sc, "quick", extra=[inst], small=getattr(inst, "small", self.small))
                 res, out = engine.native_replay(sc, self.package, inst.name, tape, profile, small=getattr(inst, "small", self.small),
                                                 test_path=self.test_path, with_shims=self.replay_with_shims)
                 failed = re.findall(r"REPLAY-CHECK-FAILED (.*)", out)
@@ -220,8 +241,7 @@ class KaniProp:
         descs = []
         okp = []
         for profile in ("dev", "release"):
-            if self.gen_mod is nucleo_props:
-                nucleo_props.write_gen(sc, "quick", extra=[inst], small=getattr(inst, "small", self.small))
+            self.gen_mod.write_gen(sc, "quick", extra=[inst], small=getattr(inst, "small", self.small))
             res, out = engine.native_replay(sc, self.package, inst.name, [], profile, small=getattr(inst, "small", self.small),
                                             test_path=self.test_path, with_shims=self.replay_with_shims)
             failed = re.findall(r"REPLAY-CHECK-FAILED (.*)", out)
@@ -250,10 +270,7 @@ class KaniProp:
                 e = matcher_props.Inst(rec["harness"], rec["unwind"], rec["expr"], [rec["property"]], rec.get("bounds", {}), rec["family"])
                 e.small = rec.get("small", self.small)
                 extra.append(e)
-            if self.gen_mod is nucleo_props:
-                nucleo_props.write_gen(sc, "quick", extra, small=rec.get("small", self.small))
-            else:
-                matcher_props.write_gen(sc, "quick", extra)
+            self.gen_mod.write_gen(sc, "quick", extra, small=rec.get("small", self.small))
             bad = False
             for profile in ("dev", "release"):
                 res, out = engine.native_replay(sc, rec["package"], rec["harness"], rec["tape"], profile,
